@@ -6,7 +6,11 @@ HOOK_COMMITS = ["d85c6ee", "170bde9", "43ffa35", "8043914", "4c6f2d6", "8d2eb59"
 
 # id -> (engine, category, technique, level text, level note, design ref)
 CHECKS = {
- "C01": ("E1-simnet-explorer", "model_checking",
+ "C14": ("E1-simnet-explorer", "model_checking",
+   "exhaustive enumeration of single (thorough: pairs of) timeline deviations over multi-hour virtual-time runs of real nodes on the simulated network; oracle from the datagram log at every maintenance boundary",
+   "An observer and four real peers run for 65 (quick) / 180 (thorough) virtual minutes on a private and a public IP plan; every crash / restart-under-a-new-id / observer-lookup at every 5-minute boundary +-1 s and mid-interval, late joiners, observer-before-bootstrap start-up and two-stage crashes are each run to the horizon, and at every boundary the table is compared with who answered whom and when according to the network log.",
+   "Loss-free network; 'about 20 minutes' read as 21 minutes.", "DESIGN.md section 6, C14"),
+  "C01": ("E1-simnet-explorer", "model_checking",
    "exhaustive enumeration of small real-node networks (shapes, join orders, writer/reader pairs, data kinds, IP plans) crossed with every admissible crash set, on the simulated network",
    "Networks of 1..3 servers + 0..1 clients (quick) / 1..4 + 0..2 (thorough) built by real joins: for every (writer, reader) pair and each of six data kinds the put runs through the public API, the acknowledging set is read from the datagram log, every crash set that leaves an acknowledging node other than the reader alive (and the reader a live contact) is applied in its own world, and the reader's public-API lookup must return the value; variants with a reader lookup already in flight, a lookup 60 s later and two overlapping callers; thorough adds single latency deviations and fixed 20- and 50-node shapes.",
    "Honest nodes, latencies below the request timeout; the 50..300-node success-rate clause is statistical and not decided.", "DESIGN.md section 6, C01"),
